@@ -372,6 +372,16 @@ func (g *G) cdxNode(id string, v int, inClass bool) M {
 			}
 			refs = append(refs, r)
 		}
+		if g.Chance(0.25) {
+			// a second reference with the type and URL of the first, told apart by comment and hashes
+			twin := Normalize(refs[0]).(M)
+			twin["c"] = "mirror"
+			twin["h"] = []any{[]any{float64(g.Pick2(cdxHashAlgos)), "cd"}}
+			refs = append(refs, twin)
+			if g.Chance(0.3) {
+				refs = append(refs, Normalize(refs[0])) // and an exact duplicate
+			}
+		}
 		attrs["ExternalReferences"] = refs
 	}
 	if !inClass && g.Chance(0.2) {
@@ -486,7 +496,7 @@ func (g *G) cdxTreeDoc(v int, inClass bool) M {
 	if !inClass && g.Chance(0.3) {
 		name = "docname"
 	}
-	meta := M{"id": g.Pick([]string{"urn:uuid:3e671687-395b-41f5-a30f-a58921a69b79", "urn:uuid:1"}), "version": g.Pick([]string{"1", "7", "42"}),
+	meta := M{"id": g.Pick([]string{"urn:uuid:3e671687-395b-41f5-a30f-a58921a69b79", "urn:uuid:1"}), "version": g.Pick([]string{"1", "7", "42", "0"}),
 		"name": name, "comment": "", "tools": []any{}, "authors": []any{}, "types": types}
 	if !inClass && g.Chance(0.2) {
 		meta["version"] = g.Pick([]string{"", "x", "-3"})
